@@ -237,50 +237,193 @@ package kvql
 //@   requires[C03] asc: forall j Int :: 0 <= j && j + 1 < len(chooseIdxes) ==> chooseIdxes[j] < chooseIdxes[j + 1]
 //@   assigns mapof(c.FieldChunkCaches)
 //
+// Exact result of one Batch call of a scan: chooseIdxes[j] is the offset (from the cursor position
+// at entry) of the j-th returned pair; every returned pair is the stored pair at that position
+// and passes the filter, every position in between fails it, and a batch shorter than
+// PlanBatchSize means the cursor is exhausted.
+//@ define gapLo(idx []int, j Int) Int = ite(j == 0, 0, idx[j - 1] + 1)
 //@ func (p *FullScanPlan) Batch(ctx *ExecuteCtx) (ret []KVPair, err error)
-//@   props C03
+//@   props C01 C03 C13
+//@   ghost j Int
+//@   ghost m Int
 //@   requires p != nil && wfFilter(p.Filter) && wfCur(p.iter) && !failed && ctx != nil && PlanBatchSize > 0
 //@   assigns cpos(p.iter), nops, failed, lastErr, ctx.Hit, mapof(ctx.FieldCaches), mapof(ctx.FieldChunkKeyCaches), mapof(ctx.FieldChunkCaches)
+//@   ensures[C01, C03] pos: err == nil ==> wfCur(p.iter) && old(cpos(p.iter)) <= cpos(p.iter) && len(local(chooseIdxes)) == len(ret) && ascIdx(local(chooseIdxes), cpos(p.iter) - old(cpos(p.iter)))
+//@   ensures[C01, C03] rows: err == nil && 0 <= j && j < len(ret) ==> val(ret[j].Key) == ckey(p.iter, old(cpos(p.iter)) + local(chooseIdxes)[j]) && val(ret[j].Value) == cval(p.iter, old(cpos(p.iter)) + local(chooseIdxes)[j]) && passes(p.Filter, val(ret[j].Key), val(ret[j].Value))
+//@   ensures[C01, C03] gaps: err == nil && 0 <= j && j < len(ret) && gapLo(local(chooseIdxes), j) <= m && m < local(chooseIdxes)[j] ==> !passes(p.Filter, ckey(p.iter, old(cpos(p.iter)) + m), cval(p.iter, old(cpos(p.iter)) + m))
+//@   ensures[C01, C03] tail: err == nil && gapLo(local(chooseIdxes), len(ret)) <= m && m < cpos(p.iter) - old(cpos(p.iter)) ==> !passes(p.Filter, ckey(p.iter, old(cpos(p.iter)) + m), cval(p.iter, old(cpos(p.iter)) + m))
+//@   ensures[C01, C03] end: err == nil && len(ret) < PlanBatchSize ==> cpos(p.iter) == clen(p.iter)
+//@   ensures[C13] readonly: nmut == old(nmut)
+//@   ensures[C13] surfaced: (failed ==> err == lastErr) && (err == nil ==> !failed)
 //@   loop 0
+//@     invariant[C13] ro: nmut == old(nmut)
 //@     invariant wfCur(p.iter) && !failed && count >= 0 && len(ret) == count && len(chooseIdxes) == count && bidx >= 0 && fresh(ret) && fresh(chooseIdxes) && fresh(filterBatch) && ascIdx(chooseIdxes, bidx)
+//@     invariant[C01, C03] at: cpos(p.iter) == old(cpos(p.iter)) + bidx && (finish ==> count >= PlanBatchSize || cpos(p.iter) == clen(p.iter)) && ptr(filterBatch) != ptr(ret)
+//@     invariant[C01, C03] rows: 0 <= j && j < count ==> val(ret[j].Key) == ckey(p.iter, old(cpos(p.iter)) + chooseIdxes[j]) && val(ret[j].Value) == cval(p.iter, old(cpos(p.iter)) + chooseIdxes[j]) && passes(p.Filter, val(ret[j].Key), val(ret[j].Value))
+//@     invariant[C01, C03] gaps: 0 <= j && j < count && gapLo(chooseIdxes, j) <= m && m < chooseIdxes[j] ==> !passes(p.Filter, ckey(p.iter, old(cpos(p.iter)) + m), cval(p.iter, old(cpos(p.iter)) + m))
+//@     invariant[C01, C03] tail: gapLo(chooseIdxes, count) <= m && m < bidx ==> !passes(p.Filter, ckey(p.iter, old(cpos(p.iter)) + m), cval(p.iter, old(cpos(p.iter)) + m))
 //@   loop 1
+//@     invariant[C13] ro: nmut == old(nmut)
 //@     invariant wfCur(p.iter) && !failed && 0 <= i && i <= PlanBatchSize && len(filterBatch) <= i && fresh(filterBatch)
 //@     invariant count >= 0 && len(ret) == count && len(chooseIdxes) == count && bidx >= 0 && fresh(ret) && fresh(chooseIdxes) && ascIdx(chooseIdxes, bidx)
+//@     invariant[C01, C03] at: cpos(p.iter) == old(cpos(p.iter)) + bidx + len(filterBatch) && (finish ==> count >= PlanBatchSize || cpos(p.iter) == clen(p.iter)) && ptr(filterBatch) != ptr(ret)
+//@     invariant[C01, C03] fetched: forall t Int :: 0 <= t && t < len(filterBatch) ==> val(filterBatch[t].Key) == ckey(p.iter, old(cpos(p.iter)) + bidx + t) && val(filterBatch[t].Value) == cval(p.iter, old(cpos(p.iter)) + bidx + t)
+//@     invariant[C01, C03] rows: 0 <= j && j < count ==> val(ret[j].Key) == ckey(p.iter, old(cpos(p.iter)) + chooseIdxes[j]) && val(ret[j].Value) == cval(p.iter, old(cpos(p.iter)) + chooseIdxes[j]) && passes(p.Filter, val(ret[j].Key), val(ret[j].Value))
+//@     invariant[C01, C03] gaps: 0 <= j && j < count && gapLo(chooseIdxes, j) <= m && m < chooseIdxes[j] ==> !passes(p.Filter, ckey(p.iter, old(cpos(p.iter)) + m), cval(p.iter, old(cpos(p.iter)) + m))
+//@     invariant[C01, C03] tail: gapLo(chooseIdxes, count) <= m && m < bidx ==> !passes(p.Filter, ckey(p.iter, old(cpos(p.iter)) + m), cval(p.iter, old(cpos(p.iter)) + m))
 //@   loop 2
+//@     invariant[C13] ro: nmut == old(nmut)
 //@     invariant count >= 0 && len(ret) == count && len(chooseIdxes) == count && bidx >= 0 && fresh(ret) && fresh(chooseIdxes) && ascIdx(chooseIdxes, bidx) && len(matchs) == len(filterBatch)
+//@     invariant[C01, C03] at: cpos(p.iter) == old(cpos(p.iter)) + bidx + len(filterBatch) - (rangeindex + 1) && (finish ==> count >= PlanBatchSize || cpos(p.iter) == clen(p.iter)) && ptr(filterBatch) != ptr(ret) && wfCur(p.iter)
+//@     invariant[C01, C03] fetched: forall t Int :: 0 <= t && t < len(filterBatch) ==> val(filterBatch[t].Key) == ckey(p.iter, cpos(p.iter) - len(filterBatch) + t) && val(filterBatch[t].Value) == cval(p.iter, cpos(p.iter) - len(filterBatch) + t) && matchs[t] == passes(p.Filter, val(filterBatch[t].Key), val(filterBatch[t].Value))
+//@     invariant[C01, C03] rows: 0 <= j && j < count ==> val(ret[j].Key) == ckey(p.iter, old(cpos(p.iter)) + chooseIdxes[j]) && val(ret[j].Value) == cval(p.iter, old(cpos(p.iter)) + chooseIdxes[j]) && passes(p.Filter, val(ret[j].Key), val(ret[j].Value))
+//@     invariant[C01, C03] gaps: 0 <= j && j < count && gapLo(chooseIdxes, j) <= m && m < chooseIdxes[j] ==> !passes(p.Filter, ckey(p.iter, old(cpos(p.iter)) + m), cval(p.iter, old(cpos(p.iter)) + m))
+//@     invariant[C01, C03] tail: gapLo(chooseIdxes, count) <= m && m < bidx ==> !passes(p.Filter, ckey(p.iter, old(cpos(p.iter)) + m), cval(p.iter, old(cpos(p.iter)) + m))
 //
+// Prefix scan: as the full scan, inside the region of keys that carry the prefix. The batch may
+// consume one pair beyond the region (the first key without the prefix): s = 1 in the invariants.
 //@ func (p *PrefixScanPlan) Batch(ctx *ExecuteCtx) (ret []KVPair, err error)
-//@   props C03
+//@   props C01 C03 C13 C18
+//@   ghost j Int
+//@   ghost m Int
 //@   requires p != nil && wfFilter(p.Filter) && wfCur(p.iter) && !failed && ctx != nil && PlanBatchSize > 0
+//@   requires (cpos(p.iter) < clen(p.iter) ==> val(p.Prefix) <= ckey(p.iter, cpos(p.iter)))
+//@   useatret csorted(p.iter, old(cpos(p.iter)), cpos(p.iter) - 1)
+//@   useatret csorted(p.iter, cpos(p.iter) - 1, m)
 //@   assigns cpos(p.iter), nops, failed, lastErr, ctx.Hit, mapof(ctx.FieldCaches), mapof(ctx.FieldChunkKeyCaches), mapof(ctx.FieldChunkCaches)
+//@   ensures[C01, C03] pos: err == nil ==> wfCur(p.iter) && old(cpos(p.iter)) <= cpos(p.iter) && len(local(chooseIdxes)) == len(ret) && ascIdx(local(chooseIdxes), cpos(p.iter) - old(cpos(p.iter)))
+//@   ensures[C01, C03] rows: err == nil && 0 <= j && j < len(ret) ==> val(ret[j].Key) == ckey(p.iter, old(cpos(p.iter)) + local(chooseIdxes)[j]) && val(ret[j].Value) == cval(p.iter, old(cpos(p.iter)) + local(chooseIdxes)[j]) && passes(p.Filter, val(ret[j].Key), val(ret[j].Value)) && pre(val(p.Prefix), val(ret[j].Key))
+//@   ensures[C01, C03] gaps: err == nil && 0 <= j && j < len(ret) && gapLo(local(chooseIdxes), j) <= m && m < local(chooseIdxes)[j] ==> !passes(p.Filter, ckey(p.iter, old(cpos(p.iter)) + m), cval(p.iter, old(cpos(p.iter)) + m))
+//@   ensures[C01, C03] tail: err == nil && gapLo(local(chooseIdxes), len(ret)) <= m && m < cpos(p.iter) - old(cpos(p.iter)) ==> !(pre(val(p.Prefix), ckey(p.iter, old(cpos(p.iter)) + m)) && passes(p.Filter, ckey(p.iter, old(cpos(p.iter)) + m), cval(p.iter, old(cpos(p.iter)) + m)))
+//@   ensures[C01, C03] end: err == nil && len(ret) < PlanBatchSize && cpos(p.iter) <= m && m < clen(p.iter) ==> !pre(val(p.Prefix), ckey(p.iter, m))
+//@   ensures[C18] region: err == nil && 0 <= m && m < cpos(p.iter) - old(cpos(p.iter)) - 1 ==> pre(val(p.Prefix), ckey(p.iter, old(cpos(p.iter)) + m))
+//@   ensures[C13] readonly: nmut == old(nmut)
+//@   ensures[C13] surfaced: (failed ==> err == lastErr) && (err == nil ==> !failed)
 //@   loop 0
-//@     invariant wfCur(p.iter) && !failed && count >= 0 && len(ret) == count && len(chooseIdxes) == count && bidx >= 0 && fresh(ret) && fresh(chooseIdxes) && fresh(filterBatch) && ascIdx(chooseIdxes, bidx)
+//@     use csorted(p.iter, cpos(p.iter), cpos(p.iter) + 1)
+//@     invariant[C13] ro: nmut == old(nmut)
+//@     invariant wfCur(p.iter) && !failed && count >= 0 && len(ret) == count && len(chooseIdxes) == count && bidx >= 0 && fresh(ret) && fresh(chooseIdxes) && fresh(filterBatch) && ascIdx(chooseIdxes, bidx) && val(pb) == val(p.Prefix)
+//@     invariant[C01, C03, C18] at: old(cpos(p.iter)) + bidx <= cpos(p.iter) && cpos(p.iter) <= old(cpos(p.iter)) + bidx + 1 && ptr(filterBatch) != ptr(ret)
+//@     invariant[C01, C03, C18] stop: cpos(p.iter) == old(cpos(p.iter)) + bidx + 1 ==> finish && !pre(val(p.Prefix), ckey(p.iter, cpos(p.iter) - 1)) && val(p.Prefix) <= ckey(p.iter, cpos(p.iter) - 1)
+//@     invariant[C01, C03, C18] fin: finish ==> count >= PlanBatchSize || cpos(p.iter) == clen(p.iter) || cpos(p.iter) == old(cpos(p.iter)) + bidx + 1
+//@     invariant[C01, C03, C18] ge: cpos(p.iter) < clen(p.iter) ==> val(p.Prefix) <= ckey(p.iter, cpos(p.iter))
+//@     invariant[C01, C03] rows: 0 <= j && j < count ==> val(ret[j].Key) == ckey(p.iter, old(cpos(p.iter)) + chooseIdxes[j]) && val(ret[j].Value) == cval(p.iter, old(cpos(p.iter)) + chooseIdxes[j]) && passes(p.Filter, val(ret[j].Key), val(ret[j].Value)) && pre(val(p.Prefix), val(ret[j].Key))
+//@     invariant[C01, C03] gaps: 0 <= j && j < count && gapLo(chooseIdxes, j) <= m && m < chooseIdxes[j] ==> !passes(p.Filter, ckey(p.iter, old(cpos(p.iter)) + m), cval(p.iter, old(cpos(p.iter)) + m))
+//@     invariant[C01, C03] tail: gapLo(chooseIdxes, count) <= m && m < bidx ==> !passes(p.Filter, ckey(p.iter, old(cpos(p.iter)) + m), cval(p.iter, old(cpos(p.iter)) + m))
+//@     invariant[C18] region: 0 <= m && m < bidx ==> pre(val(p.Prefix), ckey(p.iter, old(cpos(p.iter)) + m))
 //@   loop 1
-//@     invariant wfCur(p.iter) && !failed && 0 <= i && i <= PlanBatchSize && len(filterBatch) <= i && fresh(filterBatch)
+//@     use csorted(p.iter, cpos(p.iter), cpos(p.iter) + 1)
+//@     invariant[C13] ro: nmut == old(nmut)
+//@     invariant wfCur(p.iter) && !failed && 0 <= i && i <= PlanBatchSize && len(filterBatch) <= i && fresh(filterBatch) && val(pb) == val(p.Prefix)
 //@     invariant count >= 0 && len(ret) == count && len(chooseIdxes) == count && bidx >= 0 && fresh(ret) && fresh(chooseIdxes) && ascIdx(chooseIdxes, bidx)
+//@     invariant[C01, C03, C18] at: cpos(p.iter) == old(cpos(p.iter)) + bidx + len(filterBatch) && ptr(filterBatch) != ptr(ret) && !finish
+//@     invariant[C01, C03, C18] ge: cpos(p.iter) < clen(p.iter) ==> val(p.Prefix) <= ckey(p.iter, cpos(p.iter))
+//@     invariant[C01, C03, C18] fetched: forall t Int :: 0 <= t && t < len(filterBatch) ==> val(filterBatch[t].Key) == ckey(p.iter, old(cpos(p.iter)) + bidx + t) && val(filterBatch[t].Value) == cval(p.iter, old(cpos(p.iter)) + bidx + t) && pre(val(p.Prefix), val(filterBatch[t].Key))
+//@     invariant[C01, C03] rows: 0 <= j && j < count ==> val(ret[j].Key) == ckey(p.iter, old(cpos(p.iter)) + chooseIdxes[j]) && val(ret[j].Value) == cval(p.iter, old(cpos(p.iter)) + chooseIdxes[j]) && passes(p.Filter, val(ret[j].Key), val(ret[j].Value)) && pre(val(p.Prefix), val(ret[j].Key))
+//@     invariant[C01, C03] gaps: 0 <= j && j < count && gapLo(chooseIdxes, j) <= m && m < chooseIdxes[j] ==> !passes(p.Filter, ckey(p.iter, old(cpos(p.iter)) + m), cval(p.iter, old(cpos(p.iter)) + m))
+//@     invariant[C01, C03] tail: gapLo(chooseIdxes, count) <= m && m < bidx ==> !passes(p.Filter, ckey(p.iter, old(cpos(p.iter)) + m), cval(p.iter, old(cpos(p.iter)) + m))
+//@     invariant[C18] region: 0 <= m && m < bidx ==> pre(val(p.Prefix), ckey(p.iter, old(cpos(p.iter)) + m))
 //@   loop 2
+//@     use csorted(p.iter, cpos(p.iter), cpos(p.iter) + 1)
+//@     invariant[C13] ro: nmut == old(nmut)
 //@     invariant count >= 0 && len(ret) == count && len(chooseIdxes) == count && bidx >= 0 && fresh(ret) && fresh(chooseIdxes) && ascIdx(chooseIdxes, bidx) && len(matchs) == len(filterBatch)
+//@     invariant[C01, C03, C18] at: old(cpos(p.iter)) + bidx + len(filterBatch) - (rangeindex + 1) <= cpos(p.iter) && cpos(p.iter) <= old(cpos(p.iter)) + bidx + len(filterBatch) - (rangeindex + 1) + 1 && ptr(filterBatch) != ptr(ret) && wfCur(p.iter)
+//@     invariant[C01, C03, C18] stop: cpos(p.iter) == old(cpos(p.iter)) + bidx + len(filterBatch) - (rangeindex + 1) + 1 ==> finish && !pre(val(p.Prefix), ckey(p.iter, cpos(p.iter) - 1)) && val(p.Prefix) <= ckey(p.iter, cpos(p.iter) - 1)
+//@     invariant[C01, C03, C18] fin: finish ==> cpos(p.iter) == clen(p.iter) || cpos(p.iter) == old(cpos(p.iter)) + bidx + len(filterBatch) - (rangeindex + 1) + 1
+//@     invariant[C01, C03, C18] ge: cpos(p.iter) < clen(p.iter) ==> val(p.Prefix) <= ckey(p.iter, cpos(p.iter))
+//@     invariant[C01, C03, C18] fetched: forall t Int :: 0 <= t && t < len(filterBatch) ==> val(filterBatch[t].Key) == ckey(p.iter, old(cpos(p.iter)) + bidx - (rangeindex + 1) + t) && val(filterBatch[t].Value) == cval(p.iter, old(cpos(p.iter)) + bidx - (rangeindex + 1) + t) && pre(val(p.Prefix), val(filterBatch[t].Key)) && matchs[t] == passes(p.Filter, val(filterBatch[t].Key), val(filterBatch[t].Value))
+//@     invariant[C01, C03] rows: 0 <= j && j < count ==> val(ret[j].Key) == ckey(p.iter, old(cpos(p.iter)) + chooseIdxes[j]) && val(ret[j].Value) == cval(p.iter, old(cpos(p.iter)) + chooseIdxes[j]) && passes(p.Filter, val(ret[j].Key), val(ret[j].Value)) && pre(val(p.Prefix), val(ret[j].Key))
+//@     invariant[C01, C03] gaps: 0 <= j && j < count && gapLo(chooseIdxes, j) <= m && m < chooseIdxes[j] ==> !passes(p.Filter, ckey(p.iter, old(cpos(p.iter)) + m), cval(p.iter, old(cpos(p.iter)) + m))
+//@     invariant[C01, C03] tail: gapLo(chooseIdxes, count) <= m && m < bidx ==> !passes(p.Filter, ckey(p.iter, old(cpos(p.iter)) + m), cval(p.iter, old(cpos(p.iter)) + m))
+//@     invariant[C18] region: 0 <= m && m < bidx ==> pre(val(p.Prefix), ckey(p.iter, old(cpos(p.iter)) + m))
 //
+// Range scan: as the full scan, inside [Start, End]. The batch may consume one pair beyond the
+// region (the first key above End).
 //@ func (p *RangeScanPlan) Batch(ctx *ExecuteCtx) (ret []KVPair, err error)
-//@   props C03
+//@   props C01 C03 C13 C18
+//@   ghost j Int
+//@   ghost m Int
 //@   requires p != nil && wfFilter(p.Filter) && wfCur(p.iter) && !failed && ctx != nil && PlanBatchSize > 0
+//@   requires (cpos(p.iter) < clen(p.iter) ==> (isnil(p.Start) || val(p.Start) <= ckey(p.iter, cpos(p.iter))))
+//@   useatret csorted(p.iter, cpos(p.iter) - 1, m)
 //@   assigns cpos(p.iter), nops, failed, lastErr, ctx.Hit, mapof(ctx.FieldCaches), mapof(ctx.FieldChunkKeyCaches), mapof(ctx.FieldChunkCaches)
+//@   ensures[C01, C03] pos: err == nil ==> wfCur(p.iter) && old(cpos(p.iter)) <= cpos(p.iter) && len(local(chooseIdxes)) == len(ret) && ascIdx(local(chooseIdxes), cpos(p.iter) - old(cpos(p.iter)))
+//@   ensures[C01, C03] rows: err == nil && 0 <= j && j < len(ret) ==> val(ret[j].Key) == ckey(p.iter, old(cpos(p.iter)) + local(chooseIdxes)[j]) && val(ret[j].Value) == cval(p.iter, old(cpos(p.iter)) + local(chooseIdxes)[j]) && passes(p.Filter, val(ret[j].Key), val(ret[j].Value)) && inRng(p, val(ret[j].Key))
+//@   ensures[C01, C03] gaps: err == nil && 0 <= j && j < len(ret) && gapLo(local(chooseIdxes), j) <= m && m < local(chooseIdxes)[j] ==> !passes(p.Filter, ckey(p.iter, old(cpos(p.iter)) + m), cval(p.iter, old(cpos(p.iter)) + m))
+//@   ensures[C01, C03] tail: err == nil && gapLo(local(chooseIdxes), len(ret)) <= m && m < cpos(p.iter) - old(cpos(p.iter)) ==> !((isnil(p.End) || ckey(p.iter, old(cpos(p.iter)) + m) <= val(p.End)) && passes(p.Filter, ckey(p.iter, old(cpos(p.iter)) + m), cval(p.iter, old(cpos(p.iter)) + m)))
+//@   ensures[C01, C03] end: err == nil && len(ret) < PlanBatchSize && cpos(p.iter) <= m && m < clen(p.iter) ==> !(isnil(p.End) || ckey(p.iter, m) <= val(p.End))
+//@   ensures[C18] region: err == nil && 0 <= m && m < cpos(p.iter) - old(cpos(p.iter)) - 1 ==> inRng(p, ckey(p.iter, old(cpos(p.iter)) + m))
+//@   ensures[C13] readonly: nmut == old(nmut)
+//@   ensures[C13] surfaced: (failed ==> err == lastErr) && (err == nil ==> !failed)
 //@   loop 0
+//@     use csorted(p.iter, cpos(p.iter), cpos(p.iter) + 1)
+//@     invariant[C13] ro: nmut == old(nmut)
 //@     invariant wfCur(p.iter) && !failed && count >= 0 && len(ret) == count && len(chooseIdxes) == count && bidx >= 0 && fresh(ret) && fresh(chooseIdxes) && fresh(filterBatch) && ascIdx(chooseIdxes, bidx)
+//@     invariant[C01, C03, C18] at: old(cpos(p.iter)) + bidx <= cpos(p.iter) && cpos(p.iter) <= old(cpos(p.iter)) + bidx + 1 && ptr(filterBatch) != ptr(ret)
+//@     invariant[C01, C03, C18] stop: cpos(p.iter) == old(cpos(p.iter)) + bidx + 1 ==> finish && !isnil(p.End) && val(p.End) < ckey(p.iter, cpos(p.iter) - 1)
+//@     invariant[C01, C03, C18] fin: finish ==> count >= PlanBatchSize || cpos(p.iter) == clen(p.iter) || cpos(p.iter) == old(cpos(p.iter)) + bidx + 1
+//@     invariant[C01, C03, C18] ge: cpos(p.iter) < clen(p.iter) ==> (isnil(p.Start) || val(p.Start) <= ckey(p.iter, cpos(p.iter)))
+//@     invariant[C01, C03] rows: 0 <= j && j < count ==> val(ret[j].Key) == ckey(p.iter, old(cpos(p.iter)) + chooseIdxes[j]) && val(ret[j].Value) == cval(p.iter, old(cpos(p.iter)) + chooseIdxes[j]) && passes(p.Filter, val(ret[j].Key), val(ret[j].Value)) && inRng(p, val(ret[j].Key))
+//@     invariant[C01, C03] gaps: 0 <= j && j < count && gapLo(chooseIdxes, j) <= m && m < chooseIdxes[j] ==> !passes(p.Filter, ckey(p.iter, old(cpos(p.iter)) + m), cval(p.iter, old(cpos(p.iter)) + m))
+//@     invariant[C01, C03] tail: gapLo(chooseIdxes, count) <= m && m < bidx ==> !passes(p.Filter, ckey(p.iter, old(cpos(p.iter)) + m), cval(p.iter, old(cpos(p.iter)) + m))
+//@     invariant[C18] region: 0 <= m && m < bidx ==> inRng(p, ckey(p.iter, old(cpos(p.iter)) + m))
 //@   loop 1
+//@     use csorted(p.iter, cpos(p.iter), cpos(p.iter) + 1)
+//@     invariant[C13] ro: nmut == old(nmut)
 //@     invariant wfCur(p.iter) && !failed && 0 <= i && i <= PlanBatchSize && len(filterBatch) <= i && fresh(filterBatch)
 //@     invariant count >= 0 && len(ret) == count && len(chooseIdxes) == count && bidx >= 0 && fresh(ret) && fresh(chooseIdxes) && ascIdx(chooseIdxes, bidx)
+//@     invariant[C01, C03, C18] at: cpos(p.iter) == old(cpos(p.iter)) + bidx + len(filterBatch) && ptr(filterBatch) != ptr(ret) && !finish
+//@     invariant[C01, C03, C18] ge: cpos(p.iter) < clen(p.iter) ==> (isnil(p.Start) || val(p.Start) <= ckey(p.iter, cpos(p.iter)))
+//@     invariant[C01, C03, C18] fetched: forall t Int :: 0 <= t && t < len(filterBatch) ==> val(filterBatch[t].Key) == ckey(p.iter, old(cpos(p.iter)) + bidx + t) && val(filterBatch[t].Value) == cval(p.iter, old(cpos(p.iter)) + bidx + t) && inRng(p, val(filterBatch[t].Key))
+//@     invariant[C01, C03] rows: 0 <= j && j < count ==> val(ret[j].Key) == ckey(p.iter, old(cpos(p.iter)) + chooseIdxes[j]) && val(ret[j].Value) == cval(p.iter, old(cpos(p.iter)) + chooseIdxes[j]) && passes(p.Filter, val(ret[j].Key), val(ret[j].Value)) && inRng(p, val(ret[j].Key))
+//@     invariant[C01, C03] gaps: 0 <= j && j < count && gapLo(chooseIdxes, j) <= m && m < chooseIdxes[j] ==> !passes(p.Filter, ckey(p.iter, old(cpos(p.iter)) + m), cval(p.iter, old(cpos(p.iter)) + m))
+//@     invariant[C01, C03] tail: gapLo(chooseIdxes, count) <= m && m < bidx ==> !passes(p.Filter, ckey(p.iter, old(cpos(p.iter)) + m), cval(p.iter, old(cpos(p.iter)) + m))
+//@     invariant[C18] region: 0 <= m && m < bidx ==> inRng(p, ckey(p.iter, old(cpos(p.iter)) + m))
 //@   loop 2
+//@     use csorted(p.iter, cpos(p.iter), cpos(p.iter) + 1)
+//@     invariant[C13] ro: nmut == old(nmut)
 //@     invariant count >= 0 && len(ret) == count && len(chooseIdxes) == count && bidx >= 0 && fresh(ret) && fresh(chooseIdxes) && ascIdx(chooseIdxes, bidx) && len(matchs) == len(filterBatch)
+//@     invariant[C01, C03, C18] at: old(cpos(p.iter)) + bidx + len(filterBatch) - (rangeindex + 1) <= cpos(p.iter) && cpos(p.iter) <= old(cpos(p.iter)) + bidx + len(filterBatch) - (rangeindex + 1) + 1 && ptr(filterBatch) != ptr(ret) && wfCur(p.iter)
+//@     invariant[C01, C03, C18] stop: cpos(p.iter) == old(cpos(p.iter)) + bidx + len(filterBatch) - (rangeindex + 1) + 1 ==> finish && !isnil(p.End) && val(p.End) < ckey(p.iter, cpos(p.iter) - 1)
+//@     invariant[C01, C03, C18] fin: finish ==> cpos(p.iter) == clen(p.iter) || cpos(p.iter) == old(cpos(p.iter)) + bidx + len(filterBatch) - (rangeindex + 1) + 1
+//@     invariant[C01, C03, C18] ge: cpos(p.iter) < clen(p.iter) ==> (isnil(p.Start) || val(p.Start) <= ckey(p.iter, cpos(p.iter)))
+//@     invariant[C01, C03, C18] fetched: forall t Int :: 0 <= t && t < len(filterBatch) ==> val(filterBatch[t].Key) == ckey(p.iter, old(cpos(p.iter)) + bidx - (rangeindex + 1) + t) && val(filterBatch[t].Value) == cval(p.iter, old(cpos(p.iter)) + bidx - (rangeindex + 1) + t) && inRng(p, val(filterBatch[t].Key)) && matchs[t] == passes(p.Filter, val(filterBatch[t].Key), val(filterBatch[t].Value))
+//@     invariant[C01, C03] rows: 0 <= j && j < count ==> val(ret[j].Key) == ckey(p.iter, old(cpos(p.iter)) + chooseIdxes[j]) && val(ret[j].Value) == cval(p.iter, old(cpos(p.iter)) + chooseIdxes[j]) && passes(p.Filter, val(ret[j].Key), val(ret[j].Value)) && inRng(p, val(ret[j].Key))
+//@     invariant[C01, C03] gaps: 0 <= j && j < count && gapLo(chooseIdxes, j) <= m && m < chooseIdxes[j] ==> !passes(p.Filter, ckey(p.iter, old(cpos(p.iter)) + m), cval(p.iter, old(cpos(p.iter)) + m))
+//@     invariant[C01, C03] tail: gapLo(chooseIdxes, count) <= m && m < bidx ==> !passes(p.Filter, ckey(p.iter, old(cpos(p.iter)) + m), cval(p.iter, old(cpos(p.iter)) + m))
+//@     invariant[C18] region: 0 <= m && m < bidx ==> inRng(p, ckey(p.iter, old(cpos(p.iter)) + m))
 //
+// Point reads in batch mode: the returned pairs are stored pairs of listed keys that pass the filter,
+// one Get per key, and a batch shorter than PlanBatchSize means every listed key has been read. (That
+// every stored, passing key read in the call is among the returned pairs is not stated: it needs an
+// existential over the result, which the solvers do not carry through the three loops.)
 //@ func (p *MultiGetPlan) Batch(ctx *ExecuteCtx) (ret []KVPair, err error)
-//@   props C03
+//@   props C01 C03 C13 C18
+//@   ghost j Int
+//@   ghost m Int
 //@   requires wfMGet(p) && !failed && ctx != nil && PlanBatchSize > 0
 //@   assigns p.idx, nops, failed, lastErr, lastGet, ctx.Hit, mapof(ctx.FieldCaches), mapof(ctx.FieldChunkKeyCaches), mapof(ctx.FieldChunkCaches)
+//@   ensures[C01, C03] inv: wfMGet(p) && old(p.idx) <= p.idx
+//@   ensures[C01, C03] rows: err == nil && 0 <= j && j < len(ret) ==> shas(val(ret[j].Key)) && val(ret[j].Value) == sget(val(ret[j].Key)) && passes(p.Filter, val(ret[j].Key), val(ret[j].Value)) && member(p.Keys, len(p.Keys), val(ret[j].Key))
+//@   ensures[C01, C03] end: err == nil && len(ret) < PlanBatchSize ==> p.idx == p.numKeys
+//@   ensures[C18] oneperkey: nops - old(nops) == p.idx - old(p.idx)
+//@   ensures[C13] readonly: nmut == old(nmut)
+//@   ensures[C13] surfaced: (failed ==> err == lastErr) && (err == nil ==> !failed)
 //@   loop 0
+//@     invariant[C13] ro: nmut == old(nmut)
 //@     invariant wfMGet(p) && !failed && count >= 0 && len(ret) == count && len(chooseIdxes) == count && bidx >= 0 && fresh(ret) && fresh(chooseIdxes) && fresh(filterBatch) && ascIdx(chooseIdxes, bidx)
+//@     invariant[C01, C03, C18] at: old(p.idx) <= p.idx && nops - old(nops) == p.idx - old(p.idx) && ptr(filterBatch) != ptr(ret) && (finish ==> count >= PlanBatchSize || p.idx == p.numKeys)
+//@     invariant[C01, C03] rows: 0 <= j && j < count ==> shas(val(ret[j].Key)) && val(ret[j].Value) == sget(val(ret[j].Key)) && passes(p.Filter, val(ret[j].Key), val(ret[j].Value)) && member(p.Keys, len(p.Keys), val(ret[j].Key))
 //@   loop 1
+//@     invariant[C13] ro: nmut == old(nmut)
 //@     invariant wfMGet(p) && !failed && 0 <= i && i <= PlanBatchSize && len(filterBatch) <= i && fresh(filterBatch)
 //@     invariant count >= 0 && len(ret) == count && len(chooseIdxes) == count && bidx >= 0 && fresh(ret) && fresh(chooseIdxes) && ascIdx(chooseIdxes, bidx)
+//@     invariant[C01, C03, C18] at: old(p.idx) <= p.idx && nops - old(nops) == p.idx - old(p.idx) && ptr(filterBatch) != ptr(ret) && (finish ==> count >= PlanBatchSize || p.idx == p.numKeys)
+//@     invariant[C01, C03] fetched: forall t Int :: 0 <= t && t < len(filterBatch) ==> shas(val(filterBatch[t].Key)) && val(filterBatch[t].Value) == sget(val(filterBatch[t].Key)) && member(p.Keys, len(p.Keys), val(filterBatch[t].Key))
+//@     invariant[C01, C03] rows: 0 <= j && j < count ==> shas(val(ret[j].Key)) && val(ret[j].Value) == sget(val(ret[j].Key)) && passes(p.Filter, val(ret[j].Key), val(ret[j].Value)) && member(p.Keys, len(p.Keys), val(ret[j].Key))
 //@   loop 2
+//@     invariant[C13] ro: nmut == old(nmut)
 //@     invariant count >= 0 && len(ret) == count && len(chooseIdxes) == count && bidx >= 0 && fresh(ret) && fresh(chooseIdxes) && ascIdx(chooseIdxes, bidx) && len(matchs) == len(filterBatch)
+//@     invariant[C01, C03, C18] at: wfMGet(p) && old(p.idx) <= p.idx && nops - old(nops) == p.idx - old(p.idx) && ptr(filterBatch) != ptr(ret) && (finish ==> count >= PlanBatchSize || p.idx == p.numKeys)
+//@     invariant[C01, C03] fetched: forall t Int :: 0 <= t && t < len(filterBatch) ==> shas(val(filterBatch[t].Key)) && val(filterBatch[t].Value) == sget(val(filterBatch[t].Key)) && matchs[t] == passes(p.Filter, val(filterBatch[t].Key), val(filterBatch[t].Value)) && member(p.Keys, len(p.Keys), val(filterBatch[t].Key))
+//@     invariant[C01, C03] rows: 0 <= j && j < count ==> shas(val(ret[j].Key)) && val(ret[j].Value) == sget(val(ret[j].Key)) && passes(p.Filter, val(ret[j].Key), val(ret[j].Value)) && member(p.Keys, len(p.Keys), val(ret[j].Key))
